@@ -164,6 +164,11 @@ type Record struct {
 	Faults   map[string]int `json:"faults,omitempty"`
 	Probes   map[string]int `json:"probes,omitempty"`
 	Sites    []uint32       `json:"-"`
+	// Counts are named histograms summed over a batch (e.g. which catalogue
+	// entries were driven); ExtraHashes are members of a second distinct-set
+	// (C12: preemption pairs), shipped through the hash side file.
+	Counts      map[string]map[string]int `json:"-"`
+	ExtraHashes []uint64                  `json:"-"`
 	Viol     *Violation     `json:"violation,omitempty"`
 	Plan     *Plan          `json:"plan,omitempty"`   // present on violation and when asked for
 	Sample   any            `json:"sample,omitempty"` // rendered case, present when asked for
@@ -180,6 +185,7 @@ type Summary struct {
 	Faults     map[string]int `json:"faults,omitempty"`
 	Probes     map[string]int `json:"probes,omitempty"`
 	Extra      map[string]any `json:"extra,omitempty"`
+	Counts     map[string]map[string]int `json:"counts,omitempty"`
 }
 
 // ---------------------------------------------------------------- helpers
@@ -263,6 +269,17 @@ func (c *Ctx) Fault(kind string) {
 		c.Rec.Faults = map[string]int{}
 	}
 	c.Rec.Faults[kind]++
+}
+
+// Count adds to a named histogram of the batch.
+func (c *Ctx) Count(hist, key string) {
+	if c.Rec.Counts == nil {
+		c.Rec.Counts = map[string]map[string]int{}
+	}
+	if c.Rec.Counts[hist] == nil {
+		c.Rec.Counts[hist] = map[string]int{}
+	}
+	c.Rec.Counts[hist][key]++
 }
 
 func (c *Ctx) Logf(format string, a ...any) {
